@@ -304,6 +304,10 @@ class Recorder:
         return rows
 
 
+# the call-token opener `_app_stream` uses on the request path (name differs between trees)
+_OPEN_CALL = "_open_call_token_dated" if hasattr(_app_stream, "_open_call_token_dated") else "_open_call_token"
+
+
 class Patches:
     """Install recorder, fake clock and decode probes; always undo with `.close()`."""
 
@@ -316,14 +320,14 @@ class Patches:
             (_app_stream, "time", _app_stream.time),
             (_app_stream, "_deserialize_state_bytes", _app_stream._deserialize_state_bytes),
             (_app_stream, "_resolve_state_cls", _app_stream._resolve_state_cls),
-            (_app_stream, "_open_call_token", _app_stream._open_call_token),
+            (_app_stream, _OPEN_CALL, getattr(_app_stream, _OPEN_CALL)),
         ]
         _crypto.seal_bytes = self.rec.seal  # type: ignore[assignment]
         _state_token.time = self.clock  # type: ignore[assignment]
         _app_stream.time = self.clock  # type: ignore[assignment]
         orig_deser = _app_stream._deserialize_state_bytes
         orig_resolve = _app_stream._resolve_state_cls
-        orig_open_call = _app_stream._open_call_token
+        orig_open_call = getattr(_app_stream, _OPEN_CALL)
 
         def deser(state_cls: Any, raw: bytes, ipc_validation: Any) -> Any:
             LOG.append(("state_deserialize", None, state_cls.__name__, ""))
@@ -339,7 +343,7 @@ class Patches:
 
         _app_stream._deserialize_state_bytes = deser  # type: ignore[assignment]
         _app_stream._resolve_state_cls = resolve  # type: ignore[assignment]
-        _app_stream._open_call_token = open_call  # type: ignore[assignment]
+        setattr(_app_stream, _OPEN_CALL, open_call)
 
     def close(self) -> None:
         for mod, name, val in self._saved:
